@@ -100,16 +100,19 @@ def selftest(work, rep, module, cfg, events, verdicts, corruptions, want=6):
     dirty = {v["id"] for v in verdicts if v.get("fail") or v.get("known")}
     clean = [json.loads(l) for l in events if json.loads(l)["id"] not in dirty]
     cases, expect = [], []
-    for k, (name, clause, fn) in enumerate(corruptions * want):
-        if len(cases) >= want * len(corruptions) or k >= len(clean):
-            break
-        e = json.loads(json.dumps(clean[k]))
-        if fn(e):
-            e["id"] = len(cases)
-            cases.append(json.dumps(e))
-            expect.append((name, clause))
-    if len(cases) < len(corruptions):
-        raise vf.ToolError("self-test could not build its corrupted events")
+    for name, clause, fn in corruptions:
+        got = 0
+        for ev in clean:
+            if got >= want:
+                break
+            e = json.loads(json.dumps(ev))
+            if fn(e):
+                e["id"] = len(cases)
+                cases.append(json.dumps(e))
+                expect.append((name, clause))
+                got += 1
+        if got == 0:
+            raise vf.ToolError(f"self-test: corruption {name} applies to no recorded event")
     vs, st, tr = vf.judge_events(work, module, cfg, cases, chunk=len(cases) + 1, jobs=1, timeout=900)
     by_id = {v["id"]: v for v in vs}
     missed = [(i, expect[i]) for i in range(len(cases)) if expect[i][1] not in by_id.get(i, {}).get("fail", [])]
